@@ -46,7 +46,8 @@ Inductive eop :=
     applied answer is proofs[got], -3 removed (applied answer not identified by the harness). *)
 Inductive aop :=
 | ASubmit (v idx : Z) (ok : bool)
-| AProcess (got : Z).
+| AProcess (got : Z)
+| AEndBlock (h got : Z).   (* the consensus MODULE's EndBlock at height h; got = -4: pruned (removed, nothing applied) *)
 
 Inductive case :=
 | CMedian (s : list Z) (got : Z)
@@ -59,7 +60,7 @@ Inductive case :=
 (** VerifyEvidence on structured proofs: [subs] = (validator, index into [proofs]); [got] = index of
     a proof with the winner's type and bytes, -1 = not achieved, -2 = failed *)
 | CEvidenceP (sn : list (Z * Z)) (total : Z) (proofs : list cproof) (subs : list (Z * Z)) (got : Z)
-| CAttest (sn : list (Z * Z)) (total : Z) (proofs : list cproof) (ops : list aop).
+| CAttest (sn : list (Z * Z)) (total : Z) (added : Z) (proofs : list cproof) (ops : list aop).
 
 (** Ideal (collision-free) group key: the pair itself. *)
 Definition ikey (tag data : Z) : Z * Z := code_key (fun t d => (t, d)) tag data.
@@ -136,20 +137,28 @@ Definition ev_at (proofs : list cproof) (v idx : Z) : evidence :=
 (** Same step function as the theorems' histories (EvidenceHistory.att_step), with the ideal pair key. *)
 Definition astep := att_step ikeqb (fun t d : Z => (t, d)).
 
-Fixpoint arun (sn : snapshot) (proofs : list cproof) (s : att_state) (ops : list aop) : bool :=
+Definition won_matches (proofs : list cproof) (w : evidence) (got : Z) : bool :=
+  (got =? -3) ||
+  ((0 <=? got) && let g := ev_at proofs 0 got in (ev_tag w =? ev_tag g) && (ev_data w =? ev_data g)).
+
+Fixpoint arun (sn : snapshot) (added : Z) (proofs : list cproof) (s : att_state) (ops : list aop) : bool :=
   match ops with
   | [] => true
   | ASubmit v idx ok :: r =>
       let e := {| pe_val := v; pe_proof := proof_of (nth (Z.to_nat idx) proofs CPNone) |} in
-      Bool.eqb (hashable (pe_proof e)) ok && arun sn proofs (astep s (AoSubmit e)) r
+      Bool.eqb (hashable (pe_proof e)) ok && arun sn added proofs (astep s (AoSubmit e)) r
   | AProcess got :: r =>
       let s' := astep s (AoProcess sn (fun g => g)) in
       match as_won s' with
-      | Some w =>
-          ((got =? -3) ||
-           ((0 <=? got) && let g := ev_at proofs 0 got in (ev_tag w =? ev_tag g) && (ev_data w =? ev_data g)))
-          && match r with [] => true | _ => false end
-      | None => (got =? -1) && arun sn proofs s' r
+      | Some w => won_matches proofs w got && match r with [] => true | _ => false end
+      | None => (got =? -1) && arun sn added proofs s' r
+      end
+  | AEndBlock h got :: r =>
+      let m := end_block ikeqb (fun t d : Z => (t, d)) added {| ms_att := s; ms_pruned := false |} sn (fun g => g) h in
+      match as_won (ms_att m) with
+      | Some w => won_matches proofs w got && match r with [] => true | _ => false end
+      | None => if ms_pruned m then (got =? -4) && match r with [] => true | _ => false end
+                else (got =? -1) && arun sn added proofs (ms_att m) r
       end
   end.
 
@@ -193,5 +202,5 @@ Definition check (c : case) : bool :=
       | NotAchieved => got =? -1
       | Failed => got =? -2
       end
-  | CAttest sn total proofs ops => arun {| sn_vals := sn; sn_total := total |} proofs att_init ops
+  | CAttest sn total added proofs ops => arun {| sn_vals := sn; sn_total := total |} added proofs att_init ops
   end.
